@@ -76,6 +76,7 @@ func runScenarios(s sink.Sink, cfg props.Cfg, n int, stream string, workers int)
 
 func one(s sink.Sink, rng *rand.Rand, sample bool) {
 	sc := scen.Generate(rng)
+	sc.StrictRegister = rng.Intn(3) == 0
 	r := scen.New(rng, sc)
 	defer r.Close()
 	ok := r.Open() && r.Payments()
@@ -95,6 +96,11 @@ func Evaluate(s sink.Sink, prop string, r *scen.Run, completed, sample bool) {
 	for _, c := range calls {
 		callStrs = append(callStrs, c.String())
 		// an honest client must never make a call the reference adjudicator refuses
+		if c.Idle {
+			// strict mode: the peer's identical registration got there first; harmless by itself
+			s.Count("registrations_refused_because_they_changed_nothing", 1)
+			continue
+		}
 		if c.Err != "" && !c.Adversary {
 			problems = append(problems, "the ledger refused a call of an honest client: "+c.String())
 		}
